@@ -605,7 +605,10 @@ def call(fn, args=(), kw=()):
     if name in TRANSPARENT and len(args) == 1 and not kw:
         return args[0]
     if name == "np.asarray" and len(args) == 1:
-        return args[0]
+        dt = dict(kw).get("dtype")
+        if dt is None or not ((dt.op == "builtin" and dt.a[0] in ("int", "bool")) or (dt.op == "ext" and (dt.a[0].startswith("np.int") or dt.a[0].startswith("np.uint") or dt.a[0] in ("np.bool_", "np.intp"))) or (dt.op == "const" and isinstance(dt.a[0], str) and dt.a[0][:1] in ("i", "u", "b"))):
+            return args[0]
+        # an integer / Boolean dtype changes the values (truncation): the call stays, and it may return its argument
     if name in COMMUTATIVE_CALLS and len(args) == 2 and not kw:
         if args[1].id < args[0].id:
             args = (args[1], args[0])
